@@ -2,6 +2,7 @@ package eval
 
 import (
 	"context"
+	"errors"
 	"fmt"
 	"io"
 	"os"
@@ -203,6 +204,9 @@ func EvalString(this any, code string, emptyEnv bool) (object.Object, error) {
 	program = p.ParseProgram()
 	if len(p.Errors()) != 0 {
 		return object.NULL, fmt.Errorf("parsing error: %v", p.Errors())
+	}
+	if p.ContinuationNeeded() { // e.g. an unterminated block comment: no error is recorded, the tree has a hole.
+		return object.NULL, errors.New("parsing error: incomplete input")
 	}
 	evalState, ok := this.(*State)
 	if emptyEnv {
